@@ -210,6 +210,29 @@ func MkRaw(uid uint32, sp RawSpec, hevc bool) *rtp.Packet {
 }
 
 // UID recovers the uid of a generated packet
+// TsOf: the RTP timestamp of a media packet (0 for RTCP, which has none in this position)
+func TsOf(p *rtp.Packet) uint32 {
+	if p.Channel == rtp.ChannelVideo || p.Channel == rtp.ChannelAudio {
+		return binary.BigEndian.Uint32(p.Data[4:8])
+	}
+	return 0
+}
+
+// Stamp gives a media packet the timestamp `last` when same is set (and re-parses its header);
+// returns the timestamp the packet now carries (RTCP packets pass `last` through)
+func Stamp(p *rtp.Packet, same bool, last uint32) uint32 {
+	if p.Channel != rtp.ChannelVideo && p.Channel != rtp.ChannelAudio {
+		return last
+	}
+	if same {
+		binary.BigEndian.PutUint32(p.Data[4:8], last)
+		if err := p.Header.Unmarshal(p.Data); err != nil {
+			panic(err)
+		}
+	}
+	return TsOf(p)
+}
+
 func UID(p *rtp.Packet) uint32 { return binary.BigEndian.Uint32(p.Data[len(p.Data)-4:]) }
 
 // ---- recording consumer ----
@@ -304,6 +327,13 @@ type World struct {
 	Order  []uint32
 	Recs   []*Rec
 	nextID uint32
+	lastTs uint32
+}
+
+// stamp: see Stamp; tracks the last timestamp of this world (call inside PublishWith's mk)
+func (w *World) stamp(p *rtp.Packet, same bool) *rtp.Packet {
+	w.lastTs = Stamp(p, same, w.lastTs)
+	return p
 }
 
 func NewWorld(hevc, cacheGop bool) *World { return NewWorldSdp(hevc, cacheGop, false) }
